@@ -121,7 +121,7 @@ class Flow(object):
                 else:
                     outer_names = set(snames).difference(self.scope.locals)
                     names = {n: snames[n] for n in outer_names}
-                    for n in self.scope.globals:
+                    for n in self.scope.globals if self.scope is not self.scope.top else ():
                         # declared global: bindings of enclosing functions are skipped
                         gname = self.scope.top.names.get(n)
                         if gname is None:
